@@ -413,8 +413,8 @@ def local_writes(fn, name, must=True):
             tgt = n["l"]
         elif n["k"] == "un" and n["op"] in ("++", "--"):
             tgt = n["sub"]
-        elif n["k"] == "call" and n.get("op") in ("=", "+=", "-=") and "recv" in n:
-            tgt = n["recv"]
+        elif n["k"] == "call" and n.get("op") in ("=", "+=", "-=", "++", "--") and "recv" in n:
+            tgt = n["recv"]       # (class-type iterators: ++it is a call of operator++)
         if tgt is None:
             continue
         t = fn.nodes[fn.strip(tgt)]
@@ -497,6 +497,17 @@ class Expander:
                     assigned.add(t[2:])
         self.single = {d: n for d, n in inits.items() if d not in assigned or d in refs}
         self.assigned = assigned
+        # structured bindings of a pair-like initialiser that is never written afterwards: `auto [a, b] = f();`  a is f().first, b f().second
+        self.pair_bindings = {}
+        for i in fn.all("decl"):
+            if fn.nodes[i].get("k") != "decl":
+                continue
+            for v in fn.nodes[i].get("vars", []):
+                bs = v.get("bindings", [])
+                if len(bs) == 2 and "init" in v and v["init"] is not None and v["init"] >= 0 and "pair<" in (v.get("type") or "") \
+                        and not any(b in assigned for b in bs) and v["decl"] not in assigned:
+                    self.pair_bindings[bs[0]] = (v["init"], "first")
+                    self.pair_bindings[bs[1]] = (v["init"], "second")
         self.loopvars = {}
         for i in fn.all("rangefor"):
             n = fn.nodes[i]
@@ -540,6 +551,8 @@ class Expander:
                     self._pexp = Expander(self.prog, self.parent)
                 return self._pexp._decl_text(d, n["name"])
             return self._decl_text(d, n["name"])
+        if dk == "global" and "cval" in n:
+            return str(n["cval"])          # a named integral constant (`constexpr int kPercent = 100`) is its value
         return None
 
     def _decl_text(self, d, name):
@@ -553,6 +566,13 @@ class Expander:
                 # a loop variable that is assigned or handed out by mutable reference in the body is no longer the element as stored
                 pre = "modified:" if (self.mark_modified and d in self.assigned) else ""
                 return pre + "elem(%s)" % self.fn.text(self.loopvars[d], 0, self._cb, self._ncb)
+            finally:
+                self._active.discard(d)
+        if d in self.pair_bindings and d not in self.loopvars:
+            init, member = self.pair_bindings[d]
+            self._active.add(d)
+            try:
+                return "%s.%s" % (self.fn.text(init, 0, self._cb, self._ncb), member)
             finally:
                 self._active.discard(d)
         if d in self.single:
@@ -767,6 +787,15 @@ def init_results_checked(ctx, tag):
 
 # ---------------------------------------------------------------- positional wiring of same-typed settings
 def _name_tokens(txt):
+    # the carrier's name: `*x`, `x.value()`, `(x)`, `std::move(x)`, `static_cast<T>(x)` all carry x
+    txt = txt.strip()
+    for _ in range(4):
+        t0 = txt
+        txt = re.sub(r"(\.|->)(value|get)\(\)$", "", txt)
+        txt = re.sub(r"^(std::move|std::forward|static_cast<[^()]*>)\((.*)\)$", r"\2", txt)
+        txt = re.sub(r"^\((.*)\)$", r"\1", txt).lstrip("*&").strip()
+        if txt == t0:
+            break
     last = re.split(r"[.>]", txt.replace("this->", "").replace("()", ""))[-1].strip("_ ")
     toks = set(t for t in last.split("_") if t)
     return {re.sub(r"d$", "", t) if t in ("silenced",) else t for t in toks} - {"dropin", "drop", "in"}
@@ -1269,11 +1298,35 @@ def search_walks(fn):
 
 def loop_walk_any(fn, loop):
     """loop_walk, plus the iterator loop whose variable is declared before the loop (`it = C.begin(); for (; it != C.end(); ++it)`),
-    as hand-written searches that use the iterator afterwards are spelled."""
+    as hand-written searches that use the iterator afterwards are spelled, and its `while` spelling
+    (`it = C.rbegin(); while (it != C.rend()) { ...; ++it; }` - the increment is the body's last statement and nothing `continue`s past it)."""
     w = loop_walk(fn, loop)
     if w is not None or loop.get("stmt") is None:
         return w
     sn = fn.nodes[loop["stmt"]]
+    if sn["k"] == "while":
+        body = fn.nodes[fn.strip(sn["body"])] if sn.get("body") is not None and sn.get("body", -1) >= 0 else None
+        kids = body.get("kids", []) if body is not None and body["k"] == "compound" else []
+        if not kids or any(fn.nodes[x]["k"] == "continue" for x in fn.walk(sn["body"])):
+            return None
+        last = fn.text(kids[-1])
+        m = re.match(r"^(?:\+\+(\w+)|(\w+)\+\+)$", last)
+        if not m:
+            return None
+        nm = m.group(1) or m.group(2)
+        init, v = local_init(fn, nm, must=False)
+        if v is None or init is None or init < 0:
+            return None
+        c = fn.nodes[fn.strip(init)]
+        cnd = fn.text(sn["c"]) if sn.get("c") is not None and sn.get("c", -1) >= 0 else ""
+        if c["k"] != "call" or "recv" not in c or c.get("cname") not in ("begin", "cbegin", "rbegin", "crbegin"):
+            return None
+        back = c["cname"] in ("rbegin", "crbegin")
+        if not re.search(r"(\.|->)c?%send\(\)" % ("r" if back else ""), cnd) or (not back and re.search(r"(\.|->)c?rend\(\)", cnd)):
+            return None
+        if [w_ for w_ in local_writes(fn, nm, must=False) if fn.text(w_) not in ("++" + nm, nm + "++")] or len(local_writes(fn, nm, must=False)) != 1:
+            return None
+        return {"dir": "backward" if back else "forward", "container": fn.text(c["recv"]), "var": nm, "elem": r"^(\(?\*%s\)?|%s->)" % (re.escape(nm), re.escape(nm))}
     if sn["k"] != "for" or (sn.get("init") is not None and sn.get("init", -1) >= 0 and fn.nodes[sn["init"]]["k"] == "decl"):
         return None
     inc = fn.text(sn["inc"]) if sn.get("inc") is not None and sn.get("inc", -1) >= 0 else ""
